@@ -33,6 +33,96 @@ def nb_arg_sets(chk, cli, tier):
     extra = [dict(c, ignore_transients=False) for c in combos]
     return sets, combos + extra
 
+# ---------------------------------------------------------------------------------------------------------------
+# Both sides change the SAME leaf to different values and a strategy settles it without reporting a conflict.
+# The settling strategies that treat the sides alike (take-max, clear, use-base) must give the same merged document
+# in both role orders; the one-sided / agreement arms never reach them, so only two-sided triples exercise them.
+SYMMETRIC_LEAF_STRATEGIES = ('take-max', 'clear', 'use-base')
+
+def autoresolve_json_items(r, quick):
+    """generic JSON: every (base, local, remote) value triple over a small integer range at a leaf governed by a
+    side-symmetric auto-resolving strategy; the leaf sits in the root object or one / two objects below it;
+    variants where each side additionally changes a key of its own (one-sided changes next to the settled one)"""
+    out = []
+    vals = [0, 1, 2, 3]
+    shapes = [
+        ('/v',   lambda v, e: dict({'v': v, 'k': 'keep'}, **e)),
+        ('/w/v', lambda v, e: {'w': dict({'v': v}, **e), 'k': 'keep'}),
+        ('/a/b/v', lambda v, e: {'a': {'b': dict({'v': v}, **e), 'v': 7}, 'v': 9}),
+    ]
+    for strat in SYMMETRIC_LEAF_STRATEGIES:
+        for path, mk in shapes:
+            st = {'table': {path: strat}, 'transients': []}
+            T = (lambda st: lambda b_, l_, r_: jtask(b_, l_, r_, st))(st)
+            for b in vals:
+                for l in vals:
+                    for x in vals:
+                        own = r.random() < 0.4
+                        # each side may also touch a key of its own (disjoint from the other side's)
+                        el = {'p': 'base'}; er = {'p': 'base'}; eb = {'p': 'base'}
+                        if own: el = {'p': 'local-edit'}
+                        item = sym_item(mk(b, eb), mk(l, el), mk(x, er), 'autoresolve-json-sym', T)
+                        out.append(item)
+                        if own:
+                            eb2 = {'p': 'base', 'q': 'base'}
+                            out.append(sym_item(mk(b, eb2), mk(l, {'p': 'local-edit', 'q': 'base'}),
+                                                mk(x, {'p': 'base', 'q': 'remote-edit'}), 'autoresolve-json-sym', T))
+    return out
+
+def _strip_ids(nb):
+    for c in nb['cells']: c.pop('id', None)
+
+def minor_triple(r, bm, lm, xm, rich):
+    """(base, local, remote) valid notebooks saved with minor versions bm, lm, xm (0..5): the cells come from one
+    generated triple (no edits / each side edits cells of its own / independent random edit scripts); cell ids are
+    present exactly in the notebooks whose minor is 5 (the same base cell keeps the same id on both sides, or, when both
+    sides upgraded independently from an id-less base, sometimes fresh ids on each side)"""
+    g = 5 if 5 in (bm, lm, xm) else 4
+    for _try in range(8):
+        c = r.random()
+        if c < 0.25:
+            base = gennb.gen_notebook(r, minor=g, ncells=r.choice([0, 1, 2, 3]), rich=rich)
+            local, remote = copy.deepcopy(base), copy.deepcopy(base); how = 'minor-only'
+        elif c < 0.65:
+            base, local, remote, _ = gennb.gen_disjoint_triple(r, minor=g, rich=rich, p_insert=0.0)
+            how = 'own-cells'
+        else:
+            base, local, remote = gennb.gen_triple(r, conflict_bias=0.3, minor=g, rich=rich)
+            how = 'random-edits'
+        base, local, remote = copy.deepcopy(base), copy.deepcopy(local), copy.deepcopy(remote)
+        if g == 5 and bm < 5 and lm == 5 and xm == 5 and r.random() < 0.3:
+            used = gennb.used_ids(base, local, remote)      # two independent upgrades: unrelated ids
+            for cell in remote['cells']: cell['id'] = gennb.gen_id(r, used)
+            how += '+independent-ids'
+        for nb, m in ((base, bm), (local, lm), (remote, xm)):
+            nb['nbformat_minor'] = m
+            if m < 5: _strip_ids(nb)
+        if not (gennb.validate(base) or gennb.validate(local) or gennb.validate(remote)):
+            return base, local, remote, how
+        rich = False
+    return None
+
+def minor_items(r, quick):
+    """notebooks: the whole cube of (base, local, remote) minor versions 0..5 -- /nbformat_minor is settled by take-max
+    in every notebook merge -- with the four laws for X = local (X differs from base at least in the minor version)"""
+    out = []; dropped = 0
+    N = lambda b_, l_, r_: ntask(b_, l_, r_, None)
+    U = lambda b_, l_, r_: ntask(b_, l_, r_, {'merge_strategy': 'use-base'})
+    minors = range(6)
+    for rnd in range(1 if quick else 6):
+        for bm in minors:
+            for lm in minors:
+                for xm in minors:
+                    t = minor_triple(r, bm, lm, xm, rich=r.random() < 0.5)
+                    if t is None: dropped += 1; continue
+                    b, l, x, how = t
+                    src = 'nb-minor-sym'
+                    out.append(sym_item(b, l, x, src, N))
+                    if r.random() < (0.25 if quick else 0.5): out.append(sym_item(b, l, x, src, U))
+                    if lm != bm and (xm == bm or not quick):
+                        out += law_items(b, l, 'nb-minor-law', N)
+    return out, dropped
+
 def gen_items(chk, tier, cli):
     r = chk.rng
     items = []
@@ -120,6 +210,11 @@ def gen_items(chk, tier, cli):
     for _ in range(500 if quick else 8000):
         b, l, x = r.choice(small), r.choice(small), r.choice(small)
         items.append(sym_item(b, l, x, 'nb-small-sym', lambda b_, l_, r_: ntask(b_, l_, r_, None)))
+    # --- two-sided changes of one leaf settled by a side-symmetric strategy (drawn last: the streams above are unchanged)
+    items += autoresolve_json_items(r, quick)
+    mi, dropped = minor_items(r, quick)
+    items += mi
+    chk.cov['minor_triples_dropped_invalid'] = dropped
     return items
 
 def judge_item(it, results):
@@ -194,7 +289,9 @@ def run(tier, seed):
         'rule': 'merges judged against the four laws (expected result known: base or X) and side symmetry (two merges per triple); '
                 'cases: exhaustive pairs/triples of lists (len<=3 / <=2), multi-line strings, objects over a 3-symbol alphabet, '
                 'small nested documents, random generic JSON edits, generated notebooks under every CLI merge strategy plus '
-                'input/output strategy overrides; non-trivial = at least one side has a non-empty diff, distinct by canonical JSON of '
+                'input/output strategy overrides; two-sided changes of one leaf settled by a side-symmetric strategy '
+                '(take-max / clear / use-base): all integer triples 0..3 at three depths, and notebooks over the whole cube of '
+                '(base, local, remote) nbformat_minor 0..5 with and without cell edits; non-trivial = at least one side has a non-empty diff, distinct by canonical JSON of '
                 '(law, base, local, remote, strategy arguments)',
         'input_distribution': hist, 'traces_validated_against_impl': st['validated'], 'model_impl_mismatches': st['mismatches'],
         'outside_model_hook_reached': st['outside_model'], 'oracle_misses': st['oracle_misses'], 'model_lines': st['lines'],
